@@ -20,7 +20,7 @@ Inductive fact :=
 | FStrIntNonNeg (p : path)
 | FRouteValid (p : path)     (* the route at p passed the repaired Route.Validate *)
 | FLenLe (p q : path)        (* len(list at p) <= len(list at q) *)
-| FAllNonNeg (p : path)
+| FIdxInRange (p : path)    (* every index of the list at p is within the stored slice *)
 | FCoinsNotNil (p : path)
 | FFalse.                    (* never established: marks a check that is unsafe by itself *)
 
@@ -41,7 +41,7 @@ Definition fact_eqb (a b : fact) : bool :=
   | FReq, FReq => true
   | FAcc p, FAcc q | FVal p, FVal q | FIntNotNil p, FIntNotNil q | FIntNonNeg p, FIntNonNeg q
   | FDecNotNil p, FDecNotNil q | FStrInt64 p, FStrInt64 q | FStrIntNonNeg p, FStrIntNonNeg q
-  | FRouteValid p, FRouteValid q | FAllNonNeg p, FAllNonNeg q | FCoinsNotNil p, FCoinsNotNil q => path_eqb p q
+  | FRouteValid p, FRouteValid q | FIdxInRange p, FIdxInRange q | FCoinsNotNil p, FCoinsNotNil q => path_eqb p q
   | FLenLe p1 q1, FLenLe p2 q2 => path_eqb p1 p2 && path_eqb q1 q2
   | _, _ => false
   end.
@@ -52,7 +52,7 @@ Proof.
   apply andb_prop in H. destruct H as [H1 H2]. apply path_eqb_eq in H1. apply path_eqb_eq in H2. congruence.
 Qed.
 
-Definition holdsb (req : fval) (f : fact) : bool :=
+Definition holdsb (n : Z) (req : fval) (f : fact) : bool :=
   match f with
   | FReq => match req with VMsg false _ => false | _ => true end
   | FAcc p => match get p req with Some (VStr s) => si_acc s | _ => false end
@@ -76,7 +76,7 @@ Definition holdsb (req : fval) (f : fact) : bool :=
       match get p req, get q req with
       | Some (VList la), Some (VList lb) => (List.length la <=? List.length lb)%nat
       | _, _ => false end
-  | FAllNonNeg p => match get p req with Some (VList l) => all_nonneg l | _ => false end
+  | FIdxInRange p => match get p req with Some (VList l) => all_in_range n l | _ => false end
   | FCoinsNotNil p => match get p req with Some (VList l) => coin_amounts_not_nil l | _ => false end
   | FFalse => false
   end.
@@ -94,7 +94,7 @@ Definition needs (c : check) : list fact :=
   | KStrInt64Use p => [FReq; FStrInt64 p]
   | KStrIntNewCoin p => [FReq; FStrIntNonNeg p]
   | KIndexPair p q => [FReq; FLenLe p q]
-  | KIndexUse p => [FReq; FAllNonNeg p]
+  | KIndexUse p => [FReq; FIdxInRange p]
   | KCoinsValid p => [FReq; FCoinsNotNil p]
   | KWeights fixed _ => if fixed then [FReq] else [FFalse]
   | KRouteValidate mf _ => if fixes_patched mf then [FReq] else [FFalse]
@@ -117,7 +117,7 @@ Definition gives (c : check) : list fact :=
   | KStrIsInt64 p => [FStrInt64 p]
   | KStrIntPositive p | KStrIntNonNeg p => [FStrIntNonNeg p]
   | KLenEq p q => [FLenLe p q]
-  | KAllNonNeg p => [FAllNonNeg p]
+  | KIndexGuard p => [FIdxInRange p]
   | KCoinsAmtNotNil p => [FCoinsNotNil p]
   | KRouteValidate mf p => if fixes_patched mf then [FRouteValid p] else []
   | _ => []
@@ -133,6 +133,10 @@ Fixpoint safe (have : list fact) (cs : list check) : bool :=
   end.
 
 (* ------------------------------------------------------------------ soundness of one check *)
+Section WithLen.
+  (* the length of the stored slice the request indexes into (read from the state) *)
+  Variable n : Z.
+
 Lemma get_app : forall p q v, get (p ++ q) v = match get p v with Some x => get q x | None => None end.
 Proof.
   induction p as [|i p IH]; intros q v; simpl; [reflexivity|].
@@ -140,7 +144,7 @@ Proof.
   destruct (nth_error fs i); [apply IH|reflexivity].
 Qed.
 
-Lemma rd_req : forall req p k, holdsb req FReq = true ->
+Lemma rd_req : forall req p k, holdsb n req FReq = true ->
   rd req p k = match get p req with Some v => k v | None => Err E_BADSHAPE end.
 Proof. intros req p k H. unfold rd. destruct req; try reflexivity. destruct present; [reflexivity|discriminate]. Qed.
 
@@ -215,7 +219,7 @@ Ltac cases :=
 (* when everything a check needs holds, it does not panic *)
 Lemma exec_no_panic : forall c req,
   wf_val req = true ->
-  forallb (holdsb req) (needs c) = true -> exec c req <> Panic.
+  forallb (holdsb n req) (needs c) = true -> exec n c req <> Panic.
 Proof.
   intros c req Hwf H.
   destruct c; simpl in H; unfold exec;
@@ -262,8 +266,8 @@ Proof.
     destruct (get q req) as [b|]; [|discriminate].
     destruct a; try discriminate; destruct b; try discriminate. bz.
     destruct (Nat.ltb_spec (List.length l0) (List.length l)); [lia|discriminate].
-  (* KAllNonNeg, KIndexUse, KCoinsAmtNotNil *)
-  - cases. - cases. - cases.
+  (* KIndexGuard, KIndexUpper, KIndexUse, KCoinsAmtNotNil *)
+  - cases. - cases. - cases. - cases.
   (* KCoinsValid *)
   - destruct (get p req) as [[]|]; try discriminate. apply coins_valid_total. assumption.
   (* KWeights true *)
@@ -319,7 +323,7 @@ Ltac fin :=
   bz; rewrite ?andb_true_r;
   try match goal with |- (_ <=? _) = true => apply Z.leb_le end; try lia; try reflexivity.
 
-Lemma exec_gives : forall c req, exec c req = Ok tt -> forallb (holdsb req) (gives c) = true.
+Lemma exec_gives : forall c req, exec n c req = Ok tt -> forallb (holdsb n req) (gives c) = true.
 Proof.
   intros c req H.
   destruct c; simpl gives; try reflexivity; unfold exec in H.
@@ -365,9 +369,9 @@ Proof.
     destruct (Nat.eqb (List.length l) (List.length l0)) eqn:E; [|discriminate].
     simpl. rewrite G, G2. apply PeanoNat.Nat.eqb_eq in E. rewrite E.
     rewrite PeanoNat.Nat.leb_refl. reflexivity.
-  (* KAllNonNeg *)
+  (* KIndexGuard *)
   - apply rd_ok_inv in H. destruct H as [v [G H]]. unfold okif, bad in H.
-    destruct v; try discriminate. destruct (all_nonneg l) eqn:E; [|discriminate]. simpl. rewrite G, E. reflexivity.
+    destruct v; try discriminate. destruct (all_in_range n l) eqn:E; [|discriminate]. simpl. rewrite G, E. reflexivity.
   (* KCoinsAmtNotNil *)
   - apply rd_ok_inv in H. destruct H as [v [G H]]. unfold okif, bad in H.
     destruct v; try discriminate. destruct (coin_amounts_not_nil l) eqn:E; [|discriminate]. simpl. rewrite G, E. reflexivity.
@@ -384,7 +388,7 @@ Qed.
 
 (* ------------------------------------------------------------------ soundness of the analysis *)
 Lemma memf_holds : forall req have f,
-  (forall x, In x have -> holdsb req x = true) -> memf f have = true -> holdsb req f = true.
+  (forall x, In x have -> holdsb n req x = true) -> memf f have = true -> holdsb n req f = true.
 Proof.
   intros req have f Hall Hm. unfold memf in Hm. apply existsb_exists in Hm.
   destruct Hm as [x [Hin Heq]]. apply fact_eqb_eq in Heq. subst. apply Hall. exact Hin.
@@ -393,18 +397,18 @@ Qed.
 Theorem safe_sound : forall cs have req o,
   wf_val req = true ->
   safe have cs = true ->
-  (forall f, In f have -> holdsb req f = true) ->
-  run o cs req <> Panic.
+  (forall f, In f have -> holdsb n req f = true) ->
+  run n o cs req <> Panic.
 Proof.
   induction cs as [|c tl IH]; intros have req o Hwf Hs Hh; simpl; [discriminate|].
   simpl in Hs. apply andb_prop in Hs. destruct Hs as [Hn Hrest].
-  assert (Hneeds : forallb (holdsb req) (needs c) = true).
+  assert (Hneeds : forallb (holdsb n req) (needs c) = true).
   { apply forallb_forall. intros f Hf. rewrite forallb_forall in Hn.
     eapply memf_holds; [exact Hh|]. apply Hn. exact Hf. }
-  assert (Hstep : forall o', match exec c req with
-                             | Ok _ => run o' tl req | Err e => Err e | Panic => Panic end <> Panic).
+  assert (Hstep : forall o', match exec n c req with
+                             | Ok _ => run n o' tl req | Err e => Err e | Panic => Panic end <> Panic).
   { intros o'. pose proof (exec_no_panic c req Hwf Hneeds) as Hnp.
-    destruct (exec c req) as [[]|e|] eqn:He; [|discriminate|contradiction].
+    destruct (exec n c req) as [[]|e|] eqn:He; [|discriminate|contradiction].
     apply (IH (gives c ++ have)); auto.
     intros f Hin. apply in_app_or in Hin. destruct Hin as [Hin|Hin]; [|apply Hh; exact Hin].
     pose proof (exec_gives c req He) as Hg. rewrite forallb_forall in Hg. apply Hg. exact Hin. }
@@ -431,7 +435,7 @@ Theorem handlers_total : forall name q cs req o,
   In (name, q, cs) (specs all_on) ->
   wf_val req = true ->
   (q = true \/ req_present req = true) ->
-  run o cs req <> Panic.
+  run n o cs req <> Panic.
 Proof.
   intros name q cs req o Hin Hwf Hq.
   pose proof heads_safe as Hs. rewrite forallb_forall in Hs. specialize (Hs _ Hin). simpl in Hs.
@@ -444,12 +448,12 @@ Qed.
 
 (* the static part is a prefix of the head *)
 Local Opaque exec.
-Lemma run_static_prefix : forall cs req, run_static cs req = Panic -> forall o, run o cs req = Panic.
+Lemma run_static_prefix : forall cs req, run_static n cs req = Panic -> forall o, run n o cs req = Panic.
 Proof.
   induction cs as [|c tl IH]; intros req H o; simpl in H; [discriminate|].
   destruct c; try discriminate; simpl;
-    match goal with |- context [exec ?k req] =>
-      destruct (exec k req) as [[]|e|]; [apply IH; exact H|discriminate|reflexivity] end.
+    match goal with |- context [exec n ?k req] =>
+      destruct (exec n k req) as [[]|e|]; [apply IH; exact H|discriminate|reflexivity] end.
 Qed.
 Local Transparent exec.
 
@@ -457,11 +461,13 @@ Theorem handlers_static_total : forall name q cs req,
   In (name, q, cs) (specs all_on) ->
   wf_val req = true ->
   (q = true \/ req_present req = true) ->
-  run_static cs req <> Panic.
+  run_static n cs req <> Panic.
 Proof.
   intros name q cs req Hin Hwf Hq H.
   eapply (handlers_total name q cs req []); eauto. apply run_static_prefix. exact H.
 Qed.
+
+End WithLen.
 
 (* ------------------------------------------------------------------ coverage of the generated method list *)
 (* Gen/Msgs_gen.v is regenerated from x/*/types/{tx,query}.pb.go on every run: every service
@@ -502,7 +508,7 @@ Qed.
 Theorem generated_methods_total : forall name q sg,
   In (name, q, sg) methods_gen ->
   exists cs, In (name, q, cs) (specs all_on) /\
-    forall req o, wf_val req = true -> (q = true \/ req_present req = true) -> run o cs req <> Panic.
+    forall n req o, wf_val req = true -> (q = true \/ req_present req = true) -> run n o cs req <> Panic.
 Proof.
   intros name q sg Hin.
   pose proof handlers_covered as Hc. rewrite forallb_forall in Hc. specialize (Hc _ Hin).
@@ -510,7 +516,7 @@ Proof.
   destruct (find_spec name (specs all_on)) as [[q' cs]|] eqn:Hf; [|discriminate].
   apply andb_prop in Hc. destruct Hc as [Hq _]. apply Bool.eqb_prop in Hq. subst q'.
   exists cs. apply find_spec_in in Hf. split; [exact Hf|].
-  intros req o Hwf Hp. eapply handlers_total; eauto.
+  intros n req o Hwf Hp. eapply handlers_total; eauto.
 Qed.
 
 (* ------------------------------------------------------------------ swap interface fee rate *)
@@ -554,29 +560,29 @@ Definition good_route : route := RPool urise uusdc (Some 0).
 Local Open Scope string_scope.
 (* absent math.Int fields (nil *big.Int) *)
 Lemma nil_int_convert :
-  run [] (spec_of all_off "tokenconverter.Msg.Convert") (VMsg true [Sacc; VInt None]) = Panic.
+  run 3 [] (spec_of all_off "tokenconverter.Msg.Convert") (VMsg true [Sacc; VInt None]) = Panic.
 Proof. vm_compute. reflexivity. Qed.
 Lemma nil_int_swap_in :
-  run [] (spec_of all_off "swap.Msg.SwapExactAmountIn")
+  run 3 [] (spec_of all_off "swap.Msg.SwapExactAmountIn")
       (VMsg true [Sacc; Sempty; VRoute (Some good_route); VInt None; VInt (Some 1)]) = Panic.
 Proof. vm_compute. reflexivity. Qed.
 Lemma nil_int_self_delegate :
-  run [true] (spec_of all_off "selfdelegation.Msg.SelfDelegate") (VMsg true [Sacc; VInt None]) = Panic.
+  run 3 [true] (spec_of all_off "selfdelegation.Msg.SelfDelegate") (VMsg true [Sacc; VInt None]) = Panic.
 Proof. vm_compute. reflexivity. Qed.
 Lemma negative_self_delegate :
-  run [true] (spec_of all_off "selfdelegation.Msg.SelfDelegate") (VMsg true [Sacc; VInt (Some (-1))]) = Panic.
+  run 3 [true] (spec_of all_off "selfdelegation.Msg.SelfDelegate") (VMsg true [Sacc; VInt (Some (-1))]) = Panic.
 Proof. vm_compute. reflexivity. Qed.
 Lemma nil_int_create_position :
-  run [true] (spec_of all_off "liquiditypool.Msg.CreatePosition")
+  run 3 [true] (spec_of all_off "liquiditypool.Msg.CreatePosition")
       (VMsg true [Sacc; VNum 0; VNum (-10); VNum 10; VMsg true [Sjunk; VInt None]; VMsg true [Sjunk; VInt None];
                   VInt (Some 0); VInt (Some 0)]) = Panic.
 Proof. vm_compute. reflexivity. Qed.
 Lemma nil_int_undelegate :
-  run [true] (spec_of all_off "shareclass.Msg.NonVotingUndelegate")
+  run 3 [true] (spec_of all_off "shareclass.Msg.NonVotingUndelegate")
       (VMsg true [Sacc; Sval; VMsg true [Sjunk; VInt None]; Sempty]) = Panic.
 Proof. vm_compute. reflexivity. Qed.
 Lemma nil_collateral_amount_da_params :
-  exists req, run [] (spec_of all_off "da.Msg.UpdateParams") req = Panic.
+  exists req, run 3 [] (spec_of all_off "da.Msg.UpdateParams") req = Panic.
 Proof.
   exists (VMsg true [VStr {| si_empty := false; si_acc := true; si_val := false; si_auth := true; si_int := None;
                            si_dec := None; si_denom := false; si_suffix := true |};
@@ -587,48 +593,48 @@ Proof.
 Qed.
 (* swap quote queries: nil route, unvalidated parallel, negative amount *)
 Lemma query_nil_route :
-  run [] (spec_of all_off "swap.Query.CalculationSwapExactAmountIn") (VMsg true [VNum 0; VRoute None; Sint 5]) = Panic.
+  run 3 [] (spec_of all_off "swap.Query.CalculationSwapExactAmountIn") (VMsg true [VNum 0; VRoute None; Sint 5]) = Panic.
 Proof. vm_compute. reflexivity. Qed.
 Lemma query_unvalidated_parallel :
-  run [] (spec_of all_off "swap.Query.CalculationSwapExactAmountIn")
+  run 3 [] (spec_of all_off "swap.Query.CalculationSwapExactAmountIn")
       (VMsg true [VNum 0; VRoute (Some (RParallel urise uusdc true [good_route] [])); Sint 5]) = Panic.
 Proof. vm_compute. reflexivity. Qed.
 Lemma query_negative_amount :
-  run [true] (spec_of all_off "swap.Query.CalculationSwapExactAmountOut")
+  run 3 [true] (spec_of all_off "swap.Query.CalculationSwapExactAmountOut")
       (VMsg true [VNum 0; VRoute (Some good_route); Sint (-5)]) = Panic.
 Proof. vm_compute. reflexivity. Qed.
 (* other queries *)
 Lemma query_vote_bad_address :
-  run [] (spec_of all_off "liquidityincentive.Query.Vote") (VMsg true [Sjunk]) = Panic.
+  run 3 [] (spec_of all_off "liquidityincentive.Query.Vote") (VMsg true [Sjunk]) = Panic.
 Proof. vm_compute. reflexivity. Qed.
 Lemma query_share_bad_validator :
-  run [] (spec_of all_off "shareclass.Query.CalculateShare") (VMsg true [Sjunk; VInt (Some 1)]) = Panic.
+  run 3 [] (spec_of all_off "shareclass.Query.CalculateShare") (VMsg true [Sjunk; VInt (Some 1)]) = Panic.
 Proof. vm_compute. reflexivity. Qed.
 Lemma query_tick_out_of_int64 :
-  run [true] (spec_of all_off "liquiditypool.Query.CalculationCreatePosition")
+  run 3 [true] (spec_of all_off "liquiditypool.Query.CalculationCreatePosition")
       (VMsg true [VNum 0; Sint (2 ^ 64); Sint 5; Sint 1; Sjunk]) = Panic.
 Proof. vm_compute. reflexivity. Qed.
 Lemma query_shard_count_overflow :
-  run [] (spec_of all_off "da.Query.ZkpProofThreshold") (VMsg true [VNum (2 ^ 63)]) = Panic.
+  run 3 [] (spec_of all_off "da.Query.ZkpProofThreshold") (VMsg true [VNum (2 ^ 63)]) = Panic.
 Proof. vm_compute. reflexivity. Qed.
 (* messages *)
 Lemma proof_negative_index :
-  run [true; true; true] (spec_of all_off "da.Msg.SubmitValidityProof")
+  run 3 [true; true; true] (spec_of all_off "da.Msg.SubmitValidityProof")
       (VMsg true [Sacc; Sval; Sjunk; VList [VNum (-1)]; VList [VBytes 128]]) = Panic.
 Proof. vm_compute. reflexivity. Qed.
 Lemma vote_gauge_weight_overflow :
-  run [] (spec_of all_off "liquidityincentive.Msg.VoteGauge")
+  run 3 [] (spec_of all_off "liquidityincentive.Msg.VoteGauge")
       (VMsg true [Sacc; VList [VMsg true [VNum 0; Sdec DEC_LIM]; VMsg true [VNum 1; Sdec DEC_LIM]]]) = Panic.
 Proof. vm_compute. reflexivity. Qed.
 
 (* the same requests are answered with an error by the repaired heads *)
 Lemma repaired_answers :
-  run [] (spec_of all_on "tokenconverter.Msg.Convert") (VMsg true [Sacc; VInt None]) = Err E_HEAD /\
-  run [] (spec_of all_on "swap.Query.CalculationSwapExactAmountIn") (VMsg true [VNum 0; VRoute None; Sint 5]) = Err E_HEAD /\
-  run [] (spec_of all_on "liquidityincentive.Query.Vote") (VMsg true [Sjunk]) = Err E_HEAD /\
-  run [true; true; true] (spec_of all_on "da.Msg.SubmitValidityProof")
+  run 3 [] (spec_of all_on "tokenconverter.Msg.Convert") (VMsg true [Sacc; VInt None]) = Err E_HEAD /\
+  run 3 [] (spec_of all_on "swap.Query.CalculationSwapExactAmountIn") (VMsg true [VNum 0; VRoute None; Sint 5]) = Err E_HEAD /\
+  run 3 [] (spec_of all_on "liquidityincentive.Query.Vote") (VMsg true [Sjunk]) = Err E_HEAD /\
+  run 3 [true; true; true] (spec_of all_on "da.Msg.SubmitValidityProof")
       (VMsg true [Sacc; Sval; Sjunk; VList [VNum (-1)]; VList [VBytes 128]]) = Err E_HEAD /\
-  run [] (spec_of all_on "liquidityincentive.Msg.VoteGauge")
+  run 3 [] (spec_of all_on "liquidityincentive.Msg.VoteGauge")
       (VMsg true [Sacc; VList [VMsg true [VNum 0; Sdec DEC_LIM]; VMsg true [VNum 1; Sdec DEC_LIM]]]) = Err E_HEAD.
 Proof. vm_compute. repeat split; reflexivity. Qed.
 
@@ -685,4 +691,37 @@ Proof.
     (destruct (dsub _ _) as [diff|]; simpl; [|reflexivity];
      destruct (diff =? 0) eqn:E; simpl; [reflexivity|];
      destruct (dquo (dec_of_int amount) diff); reflexivity).
+Qed.
+
+(* ------------------------------------------------------------------ the shard index check *)
+(* the check of the source, on the unbounded index: what it accepts is a valid index *)
+Lemma idx_ok_sound : forall n j, idx_ok n j = true -> 0 <= j < n.
+Proof. intros n j H. unfold idx_ok in H. apply andb_prop in H. destruct H as [H1 H2]. apply Z.leb_le in H1. apply Z.ltb_lt in H2. lia. Qed.
+Lemma idx_ok_complete : forall n j, 0 <= j < n -> idx_ok n j = true.
+Proof. intros n j H. unfold idx_ok. apply andb_true_intro. split; [apply Z.leb_le|apply Z.ltb_lt]; lia. Qed.
+(* a comparison of the values truncated to 32 unsigned bits accepts indices that are not valid:
+   the bound must be checked at the width of the index *)
+Lemma idx_ok_u32_unsound :
+  idx_ok_u32 3 (2 ^ 32) = true /\ idx_ok 3 (2 ^ 32) = false /\
+  idx_ok_u32 3 (- 2 ^ 63) = true /\ idx_ok 3 (- 2 ^ 63) = false /\
+  idx_ok_u32 3 (2 ^ 40 + 1) = true /\ idx_ok 3 (2 ^ 40 + 1) = false.
+Proof. vm_compute. repeat split; reflexivity. Qed.
+(* SubmitValidityProof with every state-dependent branch passed: whatever the stored length and
+   the indices, the repaired head answers an out-of-range index with an error and never indexes
+   outside the slice *)
+Lemma proof_index_checked : forall n idx,
+  let req := VMsg true [Sacc; Sval; Sjunk; VList (map VNum idx); VList (map (fun _ => VBytes 128) idx)] in
+  run n [true; true; true] (spec_of all_on "da.Msg.SubmitValidityProof"%string) req =
+  if forallb (idx_ok n) idx then Ok tt else Err E_HEAD.
+Proof.
+  intros n idx req. unfold req.
+  assert (Hlen : Nat.eqb (List.length (map VNum idx)) (List.length (map (fun _ : Z => VBytes 128) idx)) = true)
+    by (rewrite !map_length; apply PeanoNat.Nat.eqb_refl).
+  assert (Hlt : (List.length (map (fun _ : Z => VBytes 128) idx) <? List.length (map VNum idx))%nat = false)
+    by (rewrite !map_length; apply PeanoNat.Nat.ltb_irrefl).
+  assert (Hall : all_in_range n (map VNum idx) = forallb (idx_ok n) idx)
+    by (clear Hlen Hlt; unfold all_in_range; induction idx as [|j tl IH]; simpl; [reflexivity|rewrite IH; reflexivity]).
+  cbv [spec_of find_spec specs String.eqb Ascii.eqb Bool.eqb g u all_on hf_on app].
+  simpl. unfold rd2, rd. simpl. unfold okif. rewrite Hlen, Hlt, Hall.
+  destruct (forallb (idx_ok n) idx); reflexivity.
 Qed.
